@@ -156,6 +156,10 @@ def o_c01(rec):
             tol = 64.0 * EPS * np.maximum(1.0, np.maximum(
                 np.abs(x), np.maximum(np.where(np.isfinite(xl), np.abs(xl), 0),
                                       np.where(np.isfinite(xu), np.abs(xu), 0))))
+            xb = ev.get("x_best")
+            if xb is not None and xb.shape == x.shape:
+                # x = x_best + step: rounding relative to the operands
+                tol = np.maximum(tol, 64.0 * EPS * np.abs(xb))
         worst = float(np.max(exc / tol)) if exc.size else 0.0
         info["max_excess"] = max(info["max_excess"], worst)
         if worst > 1.0:
